@@ -64,6 +64,9 @@ def gen_cases(tier, seed):
         for rep in range(6 if q else 30):
             cases.append({"type": "sampler", "wt": wt, "dt": float(10.0 ** rng.uniform(-4, 0.3)), "strength": float(rng.choice([0.3, 1.0, 3.0, 5.0])),
                           "s": int(rng.integers(1 << 30)), "group": "s-%s-%d" % (wt, rep), "cost": 15})
+        for rep in range(2 if q else 8):
+            cases.append({"type": "sampler", "wt": wt, "dt": float(rng.choice([0.005, 0.05])), "strength": 1.0, "predead": True,
+                          "s": int(rng.integers(1 << 30)), "group": "sd-%s-%d" % (wt, rep), "cost": 15})
     return cases
 
 
@@ -258,6 +261,13 @@ def run_sampler(case):
                           chol_scale=0.5 * case["strength"], orthonormal=True)
     smp = sampling.sampler(n_prop_steps=int(rng.choice([3, 10])), n_ene_blocks=int(rng.choice([1, 3])), n_sr_blocks=int(rng.choice([1, 2])), n_blocks=1)
     pd = S["prop_data"]
+    if case.get("predead"):
+        import jax.numpy as jnp
+
+        w0 = np.ones(nw)
+        w0[rng.choice(nw, size=int(0.75 * nw), replace=False)] = 0.0   # population that starts with dead walkers
+        pd["weights"] = jnp.array(w0)
+        smp = sampling.sampler(n_prop_steps=2, n_ene_blocks=3, n_sr_blocks=int(rng.choice([1, 2])), n_blocks=1)
     events = []
     key = "C09/sampler/%s" % wt
     nblocks = 0
